@@ -92,6 +92,8 @@ def gen_dict_op(r, key, val, ops=OPS):
     elif k in ("update_map", "update_pairs", "ior_map", "ior_pairs"):
         op["pairs"] = [[key(), val()] for _ in range(r.randint(0, 4))]
         nk = nv = len(op["pairs"])
+        if k.endswith("map") and r.random() < 0.25:
+            op["as"] = r.choice(["userdict", "proxy", "chainmap"])
         if k.endswith("pairs") and r.random() < 0.1:
             op["iter_raise_at"] = r.randint(0, len(op["pairs"]))
             op["iter_exc"] = r.choice(["ValueError", "RuntimeError", "KeyError"])
@@ -116,7 +118,18 @@ def build_dict_arg(op):
     k = op["k"]
     pairs = [(raw(a), raw(b)) for a, b in op.get("pairs", ())]
     if k in ("update_map", "ior_map"):
-        return dict(pairs)
+        d = dict(pairs)
+        how = op.get("as")
+        if how == "userdict":
+            import collections
+            return collections.UserDict(d)      # a mapping that is no dict
+        if how == "proxy":
+            import types
+            return types.MappingProxyType(d)
+        if how == "chainmap":
+            import collections
+            return collections.ChainMap(d)
+        return d
     if k == "update_bad":
         bad = {"len1": (1,), "len3": (1, 2, 3), "noniter": 5}[op["bad"]]
         pairs = list(pairs)
